@@ -47,6 +47,7 @@ from netqasm.qlink_compat import (
     LinkLayerOKTypeK,
     LinkLayerOKTypeM,
     LinkLayerOKTypeR,
+    RandomBasis,
     RequestType,
     ReturnType,
     get_creator_node_id,
@@ -1074,6 +1075,10 @@ class Executor:
             else:
                 kwargs[field] = arg
         kwargs["type"] = RequestType(kwargs["type"])  # type: ignore
+        # The random-basis sets travel through the NetQASM array as plain integers;
+        # the link layer interface (see `request_to_qlink_1_0`) expects enum members.
+        for field in ["random_basis_local", "random_basis_remote"]:
+            kwargs[field] = RandomBasis(kwargs[field])  # type: ignore
 
         return LinkLayerCreate(**kwargs)
 
